@@ -138,6 +138,31 @@ VIEWS["bsum"] = _bsum
 
 INJ = "all(implies(0 <= a and a < b and b < len(edge_list), canon(edge_list[a]) != canon(edge_list[b])) for a in Int for b in Int)"
 
+# ---- fold-defined counts for the reciprocity measures (C12)
+# cnt_size(B, s): entries of a list (bag) of hyperedges whose total size is s ; cnt_rev(S, R, s): members of the set S of size s whose reverse is in R
+CNTSZ = z3.Function("cnt_size_d", z3.ArraySort(DK.sort(), T.I), T.I, T.I)
+CNTRV = z3.Function("cnt_rev_d", z3.ArraySort(DK.sort(), T.B), z3.ArraySort(DK.sort(), T.B), T.I, T.I)
+_qb, _qs, _qr = z3.Const("_qb", z3.ArraySort(DK.sort(), T.I)), z3.Const("_qs", z3.ArraySort(DK.sort(), T.B)), z3.Const("_qr", z3.ArraySort(DK.sort(), T.B))
+_qx, _qn = z3.Const("_qx", DK.sort()), z3.Int("_qn")
+
+
+def _ksize(k):
+    return TH.tlen(DK.fst(k)) + TH.tlen(DK.snd(k))
+
+
+TH.EXTRA.update({
+    "cnt_size_d_empty (definition)": z3.ForAll([_qn], CNTSZ(z3.K(DK.sort(), z3.IntVal(0)), _qn) == 0, patterns=[CNTSZ(z3.K(DK.sort(), z3.IntVal(0)), _qn)]),
+    "cnt_size_d_step (definition)": z3.ForAll([_qb, _qx, _qn], CNTSZ(z3.Store(_qb, _qx, _qb[_qx] + 1), _qn) == CNTSZ(_qb, _qn) + z3.If(_ksize(_qx) == _qn, 1, 0),
+                                              patterns=[CNTSZ(z3.Store(_qb, _qx, _qb[_qx] + 1), _qn)]),
+    "cnt_rev_d_empty (definition)": z3.ForAll([_qr, _qn], CNTRV(z3.K(DK.sort(), z3.BoolVal(False)), _qr, _qn) == 0,
+                                              patterns=[CNTRV(z3.K(DK.sort(), z3.BoolVal(False)), _qr, _qn)]),
+    "cnt_rev_d_step (definition)": z3.ForAll([_qs, _qr, _qx, _qn], z3.Implies(z3.Not(_qs[_qx]),
+        CNTRV(z3.Store(_qs, _qx, True), _qr, _qn) == CNTRV(_qs, _qr, _qn) + z3.If(z3.And(_ksize(_qx) == _qn, _qr[DK.mk(DK.snd(_qx), DK.fst(_qx))]), 1, 0)),
+        patterns=[CNTRV(z3.Store(_qs, _qx, True), _qr, _qn)]),
+})
+VIEWS["cnt_size"] = lambda eng, p, h, B, s: T.sv_int(CNTSZ(B.t, eng.coerce(s, T.INT).t))
+VIEWS["cnt_rev"] = lambda eng, p, h, S, R, s: T.sv_int(CNTRV((S.dom if isinstance(S.ty, T.Map) else S.t), (R.dom if isinstance(R.ty, T.Map) else R.t), eng.coerce(s, T.INT).t))
+
 
 def C(name, **kw):
     kw.setdefault("properties", ["C02"])
@@ -299,7 +324,9 @@ CONTRACTS = [
       fixed={"subhypergraph": False, "keep_isolated_nodes": False, "metadata": False},
       result="Bag[Key]", pure=True, requires={"wf": "wf(self)"},
       raises={"ValueError": "order is not None and size is not None"},
-      ensures={"result": "all(count(result, k) == (1 if k in E(self) and sel(self, k, order, size, up_to) else 0) for k in Key)"},
+      ensures={"result": "all(count(result, k) == (1 if k in E(self) and sel(self, k, order, size, up_to) else 0) for k in Key)",
+               # without a filter the result is the listing of the key set (every stored hyperedge once), as one value
+               "as_listing": "implies(order is None and size is None, result == listing(E(self)))"},
       properties=["C02", "C05", "C12"]),
     Contract(f"{CLS}.get_nodes@md", FILE, [CLS, "get_nodes"], self_cls=CLS, properties=["C02", "C19"],
       params={"metadata": "Bool"}, fixed={"metadata": True}, result="Map[Int,Meta]", pure=True,
@@ -576,6 +603,29 @@ CONTRACTS = [
           "W0": "all(bsum(self, edge_list, weights, _j0, k) == 0 for k in Key if k not in E(self))",
           "NM_kept": "all(NM(self, n) == NM(old(self), n) for n in V(old(self)))",
           "weighted": "weighted(self) == weighted(old(self))", "HM": "HM(self) == HM(old(self))"}}),
+    # ------------------------------------------------------------------ hypergraphx/measures/directed/reciprocity.py (C12)
+    # exact reciprocity: for every size s in 2..max, the number of stored hyperedges of size s whose reverse is stored, divided by the number
+    # of stored hyperedges of size s (0 when there is none); counts are fold-defined over the listing of the hyperedges, `/` is uninterpreted
+    Contract("exact_reciprocity", "hypergraphx/measures/directed/reciprocity.py", ["exact_reciprocity"], properties=["C12"],
+      params={"hypergraph": "Obj[DirectedHypergraph]", "max_hyperedge_size": "Int"}, result="Map[Int,Real]", pure=True,
+      locals={"rec": "Map[Int,Real]", "tot": "Map[Int,Int]", "edge_set": "Map[Pair[Tup,Tup],Int]", "edges": "Bag[Pair[Tup,Tup]]"},
+      requires={"wf": "wf(hypergraph)"},
+      ensures={
+          "dom": "all((s in result) == (2 <= s and s <= max_hyperedge_size) for s in Int)",
+          "val": 'all(implies(2 <= s and s <= max_hyperedge_size, result[s] == (real(cnt_rev(hypergraph, local("edge_set"), local("edge_set"), s)) / real(cnt_size(hypergraph, listing(E(hypergraph)), s)) '
+                 'if cnt_size(hypergraph, listing(E(hypergraph)), s) != 0 else 0)) for s in Int)',
+          # the auxiliary table holds exactly the stored hyperedges whose size is in range
+          "edge_set": 'all((k in local("edge_set")) == (k in E(hypergraph) and 2 <= len(fst(k)) + len(snd(k)) and len(fst(k)) + len(snd(k)) <= max_hyperedge_size) for k in Key)'},
+      invariants={
+          0: {"rec": "all((s in rec) == (2 <= s and s <= max_hyperedge_size) for s in Int) and all(rec[s] == 0 for s in rec)",
+              "tot_dom": "all((s in tot) == (2 <= s and s <= max_hyperedge_size) for s in Int)",
+              "tot": "all(tot[s] == cnt_size(hypergraph, _done0, s) for s in tot)",
+              "edge_set": "all((k in edge_set) == (count(_done0, k) >= 1 and 2 <= len(fst(k)) + len(snd(k)) and len(fst(k)) + len(snd(k)) <= max_hyperedge_size) for k in Key)"},
+          1: {"rec_dom": "all((s in rec) == (2 <= s and s <= max_hyperedge_size) for s in Int)",
+              "rec": "all(rec[s] == real(cnt_rev(hypergraph, _done1, edge_set, s)) for s in rec)"},
+          2: {"rec_dom": "all((s in rec) == (2 <= s and s <= max_hyperedge_size) for s in Int)",
+              "done": "all(implies(2 <= s and s < _j2, rec[s] == (real(cnt_rev(hypergraph, edge_set, edge_set, s)) / real(tot[s]) if tot[s] != 0 else 0)) for s in rec)",
+              "todo": "all(implies(_j2 <= s, rec[s] == real(cnt_rev(hypergraph, edge_set, edge_set, s))) for s in rec)"}}),
     # ------------------------------------------------------------------ hypergraphx/measures/directed/degree.py (C12)
     Contract("in_degree", "hypergraphx/measures/directed/degree.py", ["in_degree"], properties=["C12"],
       params={"hypergraph": "Obj[DirectedHypergraph]", "node": "Node", "order": "Opt[Int]", "size": "Opt[Int]"}, result="Int", pure=True,
